@@ -52,7 +52,7 @@ def sensors():
     return _SENSORS
 
 
-_PORT = [3]
+_PORT = [3, 0]        # [port used last, number of new driver objects made so far in this process]
 
 
 def check_fresh(acc, name, v, via_alias=False):
@@ -63,7 +63,8 @@ def check_fresh(acc, name, v, via_alias=False):
     from wpilib.simulation import AnalogInputSim
     c, e, lo, hi = MODELS[name]
     cls = getattr(ds, "SharpIRGP2Y0A41SK0F" if via_alias else name)      # the older name of the 2Y0A41 driver is an alias
-    case = {"mode": "fresh", "model": name, "v_bits": struct.pack(">d", v).hex(), "via_alias": via_alias}
+    case = {"mode": "fresh", "model": name, "v_bits": struct.pack(">d", v).hex(), "via_alias": via_alias, "n_prior_fresh": _PORT[1]}
+    _PORT[1] += 1
     acc.evaluations += 1
     acc.ev("first-reading-of-a-new-driver-object")
     if via_alias:
@@ -364,6 +365,11 @@ def _replay_once(case, cross_model_first):
                 pass
     _feed_history(case)
     _RECENT.clear()
+    if case["mode"] == "fresh" and case.get("n_prior_fresh"):
+        # that many driver objects had been made (and released) before: addresses get recycled
+        v = struct.unpack(">d", bytes.fromhex(case["v_bits"]))[0]
+        for k in range(case["n_prior_fresh"]):
+            check_fresh(Acc(), list(MODELS)[k % 3], 0.4 + (k % 5) * 0.3, False)
     if case["mode"] == "repeat":
         v = struct.unpack(">d", bytes.fromhex(case["v_bits"]))[0]
         check_repeat(acc, case["model"], v, case["count"])
